@@ -19,10 +19,10 @@ EXPLANATION = ("Numerical: expression trees over blank-separated + - * /, parent
                "over numeric/boolean/string operands with symbolic numbers kept outside the 1e-6 tolerance band by precondition; z3 proves the truth value. Templates: the rendered text is "
                "compared with Python's format() on concrete values (formatting is C-level), covering each format class with width/precision and slices.")
 ASSUMPTIONS = dipkit.DIP_STUB_TEXT + ["numerical operands are positive and denominators are subtraction-free; the result is claimed within 1e-9 of the magnitude scale (sum of the absolute additive terms), so cancellation of binary64 noise cannot raise an alarm",
-                                      "numbers compared in logical expressions differ by more than 1e-3 relative or are exactly equal (the tolerance band itself is not judged)",
+                                      "numbers compared in the generated logical trees differ by more than 1e-3 relative or are exactly equal; the band families judge ==, !=, <=, >= for values within 0.9e-6 relative (must count as equal) and between 1.2e-6 and 1e-4 relative with the compared value >= 0.1 (must count as different; numpy's absolute 1e-8 term is the library's own addition and stays inside the unjudged gap)",
                                       "function values (exp, log, sin ...) are uninterpreted: only their arguments are compared"]
-OUTSIDE = ['comparisons of two bare literals and of an int node with a float node (the library has no data type to compare in / refuses them)', 'array operands', 'sign folding together with ** inside DIP numerical expressions', 'values inside the comparison tolerance band']
-BOUNDS = {'quick': '150 numerical trees (<= 4 operators), 80 logical trees (<= 4 operators), 24 template cases', 'thorough': '900 numerical, 500 logical'}
+OUTSIDE = ['comparisons of two bare literals and of an int node with a float node (the library has no data type to compare in / refuses them)', 'array operands', 'sign folding together with ** inside DIP numerical expressions', 'relative differences between 0.9e-6 and 1.2e-6 (the edge of the tolerance band, where numpy adds an absolute 1e-8)', 'strict < and > between quantities that are exactly equal after conversion (binary64 conversion noise decides; no tolerance is documented for them)']
+BOUNDS = {'quick': '150 numerical trees (<= 4 operators), 80 logical trees (<= 4 operators), 24 tolerance-band families (|d| <= 9e-7 inside, 1.2e-6 .. 1e-4 outside), 94 concrete unit ties, 34 template cases', 'thorough': '900 numerical, 500 logical, 120 band families'}
 EXHAUSTIVE = {'quick': False, 'thorough': False}
 PRE = dipkit.DIP_SRC + unitkit.REF_SRC + '''
 CUSTOM = {'[len]': 0.25}            # $unit len = 25 cm
@@ -67,6 +67,7 @@ def run(v, O):
     expr = render(O, v, v.tree)
     want, dim, scale = evalbase(O, v, v.tree)
     req = {0: None, 1: 'cm', 2: 'cm2', 3: 'dm3', -1: 'mm-1', -2: 'm-2', 4: 'm4', -3: 'm-3', -4: 'm-4'}[dim]
+    if v.custom and v.reqcustom and dim == 1: req = '[len]'        # the result is requested in the custom unit itself
     lines = ['$unit len = 25 cm'] if v.custom else []
     for name, unit, mod in v.nodes:
         lines.append(f'{name} float = {O.lit(getattr(v, name + "_0"))}' + (f' {unit}' if unit else ''))
@@ -133,6 +134,42 @@ def run(v, O):
     got = env.data(Format.VALUE)['res']
     want = leval(O, v, v.tree, defined)
     return [('logical value', O.veq(O.truth(got) if not isinstance(got, bool) else got, bool(want) if not O.symbolic else want))]
+'''
+BAND_SRC = '''
+def run(v, O):
+    # a = b (1 + d 1e-7) after unit conversion; |d| <= 9 is inside the documented 1e-6 tolerance, |d| >= 12 outside
+    fa, fb = fac(v.ua), fac(v.ub)
+    a = v.b * (fb / fa) * (1 + v.d * 1e-7)
+    A = O.lit(a) + (f' {v.ua}' if v.ua else '')
+    B = O.lit(v.b) + (f' {v.ub}' if v.ub else '')
+    lines = []
+    if v.kinds[0] == 'ref':
+        lines.append(f'n1 float = {A}'); A = '{?n1}'
+    if v.kinds[1] == 'ref':
+        lines.append(f'n2 float = {B}'); B = '{?n2}'
+    for i, op in enumerate(v.ops):
+        lines.append(f'r{i} bool = ("{A} {op} {B}")')
+    env = dip_parse('\\n'.join(lines))
+    data = env.data(Format.VALUE)
+    out = []
+    for i, op in enumerate(v.ops):
+        got = data[f'r{i}']
+        got = O.truth(got) if not isinstance(got, bool) else got
+        if v.inside:
+            want = {'==': True, '!=': False, '<=': True, '>=': True}[op]
+            out.append((f'values equal within 1e-6 relative: {op}', O.veq(got, want)))
+        else:
+            want = {'==': False, '!=': True, '<=': v.d < 0, '>=': v.d > 0, '<': v.d < 0, '>': v.d > 0}[op]
+            out.append((f'values apart by more than 1e-6 relative: {op}', O.veq(got, bool(want) if not O.symbolic else want)))
+    return out
+'''
+TIES_SRC = '''
+def run(v, O):
+    out = []
+    for head, expr, want in v.cases:
+        r = outcome(lambda: bool(dip_parse(head + '\\nres bool = ("' + expr + '")').data(Format.VALUE)['res']))
+        out.append((f'{head.splitlines()[0]} ; {expr}', O.same(r, ('ok', want))))
+    return out
 '''
 TPL_SRC = '''
 def run(v, O):
@@ -282,8 +319,32 @@ TEMPLATES = [
     ('two references', 'a int = 1\nb int = 2', '{{?a}}+{{?b}}', '1+2'), ('nested path', 'g\n  a int = 3', 'v={{?g.a}:03d}', 'v=003'),
     ('after modification', 'a int = 1\na = 9', '{{?a}}', '9'), ('negative float', 'h float = -2.5', '{{?h}:.1f}', '-2.5'), ('exponent width', 'h float = 12345.678', '{{?h}:12.4e}|', '  1.2346e+04|'),
     ('single braces are text', 'a int = 1', 'f(x) = {x} {{?a}}', 'f(x) = {x} 1'), ('adjacent references', 'a int = 1\nb str = "z"', '{{?a}}{{?b}}', '1z'),
+    ('bare d', 'id int = 345', '{{?id}:d}', '345'), ('bare e', 'w float = 62.3 kg', '{{?w}:e}', '6.230000e+01'), ('bare f', 'h float = 1.5', '{{?h}:f}', '1.500000'), ('bare s', "name str = 'Tina'", '{{?name}:s}', 'Tina'),
+    ('bare format on an element', 'w float[3] = [23.4,235.4,34]', '{{?w}[1]:e}', '2.354000e+02'), ('bare format on a slice of a string', "name str = 'Tina'", '{{?name}[0:2]:s}|', 'Ti|'), ('precision only', 'h float = 2.71828', '{{?h}:.3f}', '2.718'),
+    ('width only int', 'k int = 42', '{{?k}:4d}|', '  42|'), ('int as e', 'k int = 345', '{{?k}:e}', '3.450000e+02'), ('int as bare f', 'k int = 3', '{{?k}:f}', '3.000000'),
     ('float with unit only value is rendered', 'h float = 2 m', '{{?h}:.0f}', '2'), ('int as float format', 'k int = 3', '{{?k}:.1f}', '3.0'), ('zero', 'k int = 0', '{{?k}:03d}', '000'),
 ]
+
+
+def _ties():
+    out = []
+    for head, other in (('a float = 30 cm', '3 dm'), ('a float = 30 cm', '0.3 m'), ('a float = 0.1 km', '100 m'), ('a float = 57.3 kg', '57300 g'), ('a float = 1.1 m', '110 cm'),
+                        ('a float = 3 dm', '30 cm'), ('a float = 0.7 cm', '7 mm'), ('a float = 2.54 cm', '1 in'), ('a float = 1e-3 s', '1 ms'), ('a float = 33 mm', '3.3 cm')):
+        for op, want in (('==', True), ('!=', False), ('<=', True), ('>=', True), ('<', False), ('>', False)):
+            if op in ('<', '>'):
+                continue          # strict comparisons of equal quantities are not judged: conversion noise decides them and the documentation gives them no tolerance
+            out.append((head, '{?a} ' + op + ' ' + other, want))
+            out.append((head, other + ' ' + op + ' {?a}', want))
+    for head, expr, want in (('w float = 57.3 kg', '{?w} == 57.30001 kg', True), ('w float = 57.3 kg', '{?w} >= 57.30001 kg', True), ('w float = 57.3 kg', '{?w} <= 57.29999 kg', True),
+                             ('w float = 57.3 kg', '{?w} >= 57300.01 g', True), ('w float = 57.3 kg', '{?w} != 57.30001 kg', False), ('w float = 57.3 kg', '{?w} >= 57.31 kg', False),
+                             ('w float = 57.3 kg', '{?w} <= 57.29 kg', False), ('w float = 57.3 kg', '{?w} == 57.31 kg', False), ('w float = 57.3 kg', '{?w} != 57.31 kg', True),
+                             ('w float = 57.3 kg', '~({?w} == 57.30001 kg)', False), ('k int = 3', '{?k} == 3', True), ('k int = 3', '{?k} != 3', False), ('k int = 3', '{?k} != 4', True),
+                             ('k int = 3', '{?k} <= 3 && {?k} >= 3', True)):
+        out.append((head, expr, want))
+    return out
+
+
+TIES = _ties()
 
 
 def scenarios(tier, seed):
@@ -293,7 +354,7 @@ def scenarios(tier, seed):
     for j in range(nnum):
         custom = (j % 5 == 0)
         g = NG(rnd, custom)
-        dim = rnd.choice([0, 1, 1, 2])
+        dim = rnd.choice([0, 1, 1, 2]) if not (custom and j % 2 == 0) else 1
         t = fix_left(g.tree(dim, rnd.choice([1, 2, 2, 3])))
         inp = {n: 'real' for n in g.names}
         for name, unit, mod in g.nodes:
@@ -301,7 +362,7 @@ def scenarios(tier, seed):
             inp[name + '_0'] = 'real'
         if not inp:
             continue
-        S.append(Scenario(f'numerical/{j}', NUM_SRC, inp, [f'v.{n} > 0' for n in inp], consts={'tree': t, 'nodes': g.nodes, 'custom': custom}, preamble=PRE, what=f'numerical expression {t}', samples=2))
+        S.append(Scenario(f'numerical/{j}', NUM_SRC, inp, [f'v.{n} > 0' for n in inp], consts={'tree': t, 'nodes': g.nodes, 'custom': custom, 'reqcustom': custom and j % 2 == 0}, preamble=PRE, what=f'numerical expression {t}', samples=2))
     bad = [('adding different dimensions', 'a float = ("10 m + 1 J")'), ('subtracting different dimensions', 'a float = ("10 m - 1 s") m'), ('reference to a missing node', 'a float = ("{?zz} * 2")'),
            ('result requested in another dimension', 'a float = ("2 m * 3 m") s'), ('unknown unit inside the expression', 'a float = ("2 foo + 1 foo")')]
     S.append(Scenario('numerical-rejected', MIX_SRC, {}, consts={'bad': bad}, preamble=PRE, what='numerical expressions that must be refused', samples=1))
@@ -325,9 +386,25 @@ def scenarios(tier, seed):
         if not inp:
             continue
         S.append(Scenario(f'logical/{j}', LOG_SRC, inp, pre, consts={'tree': t, 'nodes': state['nodes']}, preamble=LOG_PRE, what=f'logical expression {t}', samples=2))
+    nband = 24 if tier == 'quick' else 120
+    for j in range(nband):
+        dim = j % 2
+        units = {0: [None], 1: ['m', 'cm', 'dm', 'km', 'in']}[dim]
+        ua, ub = rnd.choice(units), rnd.choice(units)
+        kinds = [('ref', 'lit'), ('lit', 'ref'), ('ref', 'ref')][j % 3]
+        inside = (j % 4) < 2
+        fa, fb = (unitkit.ref_units(ua)[0] if ua else 1.0), (unitkit.ref_units(ub)[0] if ub else 1.0)
+        if inside:
+            ops, pre = ['==', '!=', '<=', '>='], ['v.b > 0', 'v.d >= -9', 'v.d <= 9']
+        else:
+            ops = ['==', '!=', '<=', '>=', '<', '>']
+            pre = ['v.b >= 0.1', f'v.b * {fb / fa!r} >= 0.1', 'abs(v.d) >= 12', 'abs(v.d) <= 1000']
+        S.append(Scenario(f'band/{j}', BAND_SRC, {'b': 'real', 'd': 'real'}, pre, consts={'ua': ua, 'ub': ub, 'kinds': kinds, 'ops': ops, 'inside': inside}, preamble=PRE,
+                          what=f'comparisons of values {"inside" if inside else "just outside"} the 1e-6 tolerance, units {ua} / {ub}, operands {kinds}', samples=3))
+    S.append(Scenario('ties', TIES_SRC, {}, consts={'cases': TIES}, preamble=PRE, what='comparisons of exactly equal quantities written in different units (binary64 conversion noise)', samples=1))
     S.append(Scenario('templates', TPL_SRC, {}, consts={'cases': TEMPLATES}, preamble=PRE, what='templates against Python format()', samples=1))
     S.append(Scenario('canary/priority', NUM_SRC, {'x1': 'real', 'x2': 'real', 'x3': 'real'}, ['v.x1 > 0', 'v.x2 > 0', 'v.x3 > 0'],
-                      consts={'tree': ('bin', '*', ('bin', '+', ('lit', 'x1', 'm'), ('lit', 'x2', 'cm')), ('lit', 'x3', None)), 'nodes': [], 'custom': False}, preamble=PRE, canary=True))
+                      consts={'tree': ('bin', '*', ('bin', '+', ('lit', 'x1', 'm'), ('lit', 'x2', 'cm')), ('lit', 'x3', None)), 'nodes': [], 'custom': False, 'reqcustom': False}, preamble=PRE, canary=True))
     return S
 
 
